@@ -124,7 +124,7 @@ theorem wf_group2 (hw : WF tb s) (g : Group) : WF tb (group2 tb.cfg s g).1 := by
   · exact h2
   · exact h3
 
-theorem group4_fst (s : State) (g : Group) : (group4 s g).1 = s := by
+theorem wf_group4_fst (s : State) (g : Group) : (group4 s g).1 = s := by
   unfold group4
   split
   · simp only
@@ -143,7 +143,7 @@ theorem wf_dispatch (h : EccOk tb) (hw : WF tb s) (g : Group) : WF tb (dispatch 
   split; · exact wf_group0 hw g
   split; · exact wf_group1 h hw g
   split; · exact wf_group2 hw g
-  split; · rw [group4_fst]; exact hw
+  split; · rw [wf_group4_fst]; exact hw
   split; · exact wf_group10 hw g
   exact hw
 
